@@ -465,3 +465,20 @@ pub(crate) fn note_luma_recon(ws: &[u8], stride: usize) {
     l.extend(ws[16 * stride + 1..][..16].iter().map(|&b| u32::from(b)));
     l.extend((0..16).map(|i| u32::from(ws[(i + 1) * stride + 16])));
 }
+
+/// `Vp8Decoder::loop_filter` over a whole key frame on caller-supplied aligned planes
+/// (see `vp8::verif_loop_filter`).
+#[allow(clippy::too_many_arguments)]
+pub fn vp8_loop_filter(
+    w: u16,
+    h: u16,
+    simple: bool,
+    sharpness: u8,
+    level: u8,
+    ybuf: &[u8],
+    ubuf: &[u8],
+    vbuf: &[u8],
+    mbs: &[(bool, bool)],
+) -> (Vec<u8>, Vec<u8>, Vec<u8>) {
+    crate::vp8::verif_loop_filter(w, h, simple, sharpness, level, ybuf, ubuf, vbuf, mbs)
+}
